@@ -227,6 +227,16 @@ Definition ty_kind (t : ty) : nat :=              (* type(t): distinguishes the 
 
 Definition slot_of (m : meth) (s : slot) : ty := match slot_ty m s with Some t => t | None => Cls 0 end.
 
+(* the two decisions of generate_dependent_dispatch that pick the strategy.  For one position whose types are all
+   Literal-like ("keyable"): distinct = number of different keys, nkeyed = number of (key, handler) pairs, nfeat = number of
+   different types at the position -- a shared key forces counting, fewer than four types the if-chain, else the table.
+   At the end: a table if a key expression survived, else the if-chain if the handlers are exclusive, else counting. *)
+Inductive kchoice := KCount | KChain | KTable.
+Definition keyable_decide (distinct nkeyed nfeat : nat) : kchoice :=
+  if negb (Nat.eqb distinct nkeyed) then KCount else if Nat.ltb nfeat 4 then KChain else KTable.
+Definition final_choice (haskey exclusive : bool) : kchoice :=
+  if haskey then KTable else if exclusive then KChain else KCount.
+
 (* strategy selection: mirrors the loop over the positions of the key (later positions overwrite the flags),
    then the "more than one relevant position" reset, then the single-handler shortcut *)
 Definition choose_strategy (hs : list meth) (slots : list slot) : strategy :=
@@ -246,11 +256,11 @@ Definition choose_strategy (hs : list meth) (slots : list slot) : strategy :=
                                               end) hs in
                 let keyed := concat all_keys in
                 let distinct := length (fold_left (fun seen kv => if val_in (fst kv) seen then seen else fst kv :: seen) keyed []) in
-                if negb (Nat.eqb distinct (length keyed))
-                then (false, None)                       (* a key shared by several handlers: counting (repair of KF-16) *)
-                else if Nat.ltb (length featured) 4
-                then (true, None)
-                else (fst acc, Some (s, keyed))
+                match keyable_decide distinct (length keyed) (length featured) with
+                | KCount => (false, None)                (* a key shared by several handlers: counting (repair of KF-16) *)
+                | KChain => (true, None)
+                | KTable => (fst acc, Some (s, keyed))
+                end
             | _ => (false, snd acc)       (* exclusive_type is False for every built-in dependent type *)
             end
           else acc
@@ -261,8 +271,8 @@ Definition choose_strategy (hs : list meth) (slots : list slot) : strategy :=
   let keyed := if multi then None else keyed in
   let exclusive := exclusive || Nat.eqb (length hs) 1 in
   match keyed with
-  | Some (s, tab) => SKeyed s tab
-  | None => if exclusive then SChain else SCount
+  | Some (s, tab) => match final_choice true exclusive with KTable => SKeyed s tab | KChain => SChain | KCount => SCount end
+  | None => match final_choice false exclusive with KTable | KChain => SChain | KCount => SCount end
   end.
 
 Inductive dout : Type :=
